@@ -136,8 +136,20 @@ func runC09(r *R) {
 			}
 		}
 	}
+	// the gun's diagnostics read the request (and its body) before it is sent: they must not change what is sent
+	diag := ""
+	var diagTrace, diagAnsw map[string]interface{}
+	if w.Draw(4) == 0 {
+		tr, dump := w.Bool(), w.Bool()
+		diagTrace = map[string]interface{}{"trace": tr, "dump": dump}
+		diag = fmt.Sprintf("trace=%v dump=%v", tr, dump)
+		if f := []string{"", "all", "warning"}[w.Draw(3)]; f != "" {
+			diagAnsw = map[string]interface{}{"enabled": true, "path": "/dev/null", "filter": f}
+			diag += " answlog=" + f
+		}
+	}
 	total := n * passes
-	r.Sample(map[string]any{"format": format, "entries": n, "passes": passes, "config_headers": confHdr, "gun": gunKind, "ssl": ssl, "keep_alive": keepAlive, "shared_client": shared, "instances": inst, "target": target, "latency": lat.String(), "chunk": chunk, "file": clipB(file)})
+	r.Sample(map[string]any{"format": format, "entries": n, "passes": passes, "config_headers": confHdr, "gun": gunKind, "diagnostics": diag, "ssl": ssl, "keep_alive": keepAlive, "shared_client": shared, "instances": inst, "target": target, "latency": lat.String(), "chunk": chunk, "file": clipB(file)})
 	if inst >= 2 || collide {
 		r.NonTrivial()
 	}
@@ -157,6 +169,13 @@ func runC09(r *R) {
 	gun := map[string]interface{}{"type": gunKind, "target": target, "ssl": ssl, "disable-keep-alives": !keepAlive}
 	if shared {
 		gun["shared-client"] = map[string]interface{}{"enabled": true, "client-number": 1 + w.Draw(2)}
+	}
+	if diagTrace != nil {
+		gun["httptrace"] = diagTrace
+		r.Note("gun-diagnostics-on")
+	}
+	if diagAnsw != nil {
+		gun["answlog"] = diagAnsw
 	}
 	var tgt *httpTarget
 	res := runHTTPPool(r, httpPoolSpec{Ammo: ammo, Gun: gun, Instances: inst, Tokens: total + 2, Files: map[string][]byte{"/ammo/ammo.txt": file}},
